@@ -154,7 +154,7 @@ func boundAtom(r *Run, fn string, key, bound core.ExprPred, rel token.Token, wha
 	label := fmt.Sprintf("%s: %s", f.Name, what)
 	var seen []string
 	okPos := token.NoPos
-	ast.Inspect(f.Body(), func(x ast.Node) bool {
+	core.InspectBody(f, func(x ast.Node) bool {
 		e, isE := x.(ast.Expr)
 		if !isE {
 			return true
@@ -207,7 +207,7 @@ func init() {
 					fn, pStart, pEnd := ctor, "param:0", "param:1"
 					if !calleeSet(f)["common/db.bytesPrefix"] {
 						c0 := f.Ctx()
-						ast.Inspect(f.Body(), func(x ast.Node) bool {
+						core.InspectBody(f, func(x ast.Node) bool {
 							as, ok := x.(*ast.AssignStmt)
 							if !ok || len(as.Lhs) != 1 || len(as.Rhs) != 1 || !core.IsObj("param:1")(c0, as.Lhs[0]) {
 								return true
@@ -257,7 +257,7 @@ func init() {
 					label := fmt.Sprintf("%s hands (start, end, reverse) unchanged to the iterator's range filter", f.Name)
 					found, good := false, false
 					var pos token.Pos
-					ast.Inspect(f.Body(), func(x ast.Node) bool {
+					core.InspectBody(f, func(x ast.Node) bool {
 						cl, ok := x.(*ast.CompositeLit)
 						if !ok {
 							return true
@@ -299,7 +299,7 @@ func init() {
 					c := f.Ctx()
 					label := fmt.Sprintf("%s bounds the engine iterator by Range{Start: start, Limit: end}", f.Name)
 					good, pos := false, f.Node().Pos()
-					ast.Inspect(f.Body(), func(x ast.Node) bool {
+					core.InspectBody(f, func(x ast.Node) bool {
 						cl, ok := x.(*ast.CompositeLit)
 						if !ok {
 							return true
@@ -335,7 +335,7 @@ func init() {
 				if f := r.Fn(iterFns[3]); f != nil {
 					c := f.Ctx()
 					good, pos := false, f.Node().Pos()
-					ast.Inspect(f.Body(), func(x ast.Node) bool {
+					core.InspectBody(f, func(x ast.Node) bool {
 						if as, ok := x.(*ast.AssignStmt); ok && len(as.Lhs) == 1 && len(as.Rhs) == 1 && recvField("Reverse")(c, as.Lhs[0]) {
 							pos = as.Pos()
 							good = core.IsObj("param:2")(c, as.Rhs[0])
@@ -416,7 +416,7 @@ func init() {
 						}
 						seeks := []string{bdg + "(*Iterator).Seek", bdgIt + "Seek"}
 						hasStart, hasEnd := false, false
-						ast.Inspect(f.Body(), func(x ast.Node) bool {
+						core.InspectBody(f, func(x ast.Node) bool {
 							if call, ok := x.(*ast.CallExpr); ok && core.Names(seeks...).Has(core.Callee(c.Info, call)) && len(call.Args) == 1 {
 								hasStart = hasStart || isStart(c, call.Args[0])
 								hasEnd = hasEnd || isEnd(c, call.Args[0])
@@ -463,7 +463,7 @@ func init() {
 					label := fmt.Sprintf("%s appends its operation at the end of the batch's list", f.Name)
 					good, pos := false, f.Node().Pos()
 					var elem ast.Expr
-					ast.Inspect(f.Body(), func(x ast.Node) bool {
+					core.InspectBody(f, func(x ast.Node) bool {
 						as, ok := x.(*ast.AssignStmt)
 						if !ok || len(as.Lhs) != 1 || len(as.Rhs) != 1 || !recvField("writes")(c, as.Lhs[0]) {
 							return true
